@@ -45,6 +45,7 @@ type Scenario struct {
 	CloseAfter int // submit only this many messages, then close while they may be in flight (-1: wait for all outcomes first)
 	DupAsError bool
 	LeaderlessAtStart int32 // partition without a leader at start (-1 none)
+	LatencyMs         int   // every produce answer is delayed by this much (batches accumulate meanwhile)
 	CloseAtEvent      int   // >= 0: stop submitting and close as soon as this many hook events were recorded
 }
 
@@ -193,17 +194,19 @@ func Gen(seed uint64, focus string) *Scenario {
 	for i := 0; i < nf; i++ {
 		at := r.Range(1, 8)
 		f := sarama.VerifSimFault{OnlyPartition: -1}
-		switch r.Intn(9) {
+		switch r.Pick(0, 1, 2, 3, 3, 3, 4, 5, 6, 7, 8) {
 		case 0, 1:
 			f.Kind, f.Code = "err", retriable[r.Intn(len(retriable))]
 		case 2:
 			f.Kind, f.Code = "errAppend", []sarama.KError{sarama.ErrRequestTimedOut, sarama.ErrNotEnoughReplicasAfterAppend}[r.Intn(2)]
 		case 3:
 			// any broker error code at all (the whole KError range), not only the ones the producer names
-			if r.Bool() {
+			if r.Chance(1, 4) {
 				f.Kind, f.Code = "err", fatal[r.Intn(len(fatal))]
 			} else {
-				f.Kind, f.Code = "err", sarama.KError(r.Range(1, 96))
+				// every scenario has one designated code out of the whole KError range (round-robin over the seeds,
+				// so that a few hundred scenarios cover every code several times)
+				f.Kind, f.Code = "err", sarama.KError(1+int(seed%96))
 				if f.Code == sarama.ErrDuplicateSequenceNumber || f.Code == sarama.ErrOutOfOrderSequenceNumber || f.Code == sarama.ErrInvalidProducerEpoch {
 					// sequence verdicts are given by the broker's idempotence rules only (a scripted one would be an unfaithful broker)
 					f.Code = sarama.ErrUnknown
@@ -251,6 +254,26 @@ func Gen(seed uint64, focus string) *Scenario {
 	if focus == "SYNC" {
 		sc.Sync = true
 	}
+	if focus == "C16" || r.Chance(1, 6) {
+		// broker latency with tight limits: batches accumulate while a request is in flight
+		sc.LatencyMs = r.Pick(3, 8, 20)
+		if r.Bool() {
+			sc.MaxMsgs = r.Range(1, 5)
+			if sc.FlushMsgs > sc.MaxMsgs {
+				sc.FlushMsgs = sc.MaxMsgs
+			}
+		} else {
+			sc.MaxMsgByte = r.Range(150, 600)
+			for i := range sc.Msgs {
+				if sc.Msgs[i].ValLen > sc.MaxMsgByte/3 {
+					sc.Msgs[i].ValLen = r.Range(20, sc.MaxMsgByte/3)
+				}
+			}
+		}
+		for i := range sc.PauseMs {
+			sc.PauseMs[i] = r.Pick(0, 0, 1)
+		}
+	}
 	return sc
 }
 
@@ -267,7 +290,7 @@ func (sc *Scenario) String() string {
 	}
 	return fmt.Sprintf("seed=%d focus=%s brokers=%d parts=%d retry=%d flush=%d/%d/%dms max=%d maxbytes=%d idem=%v acks=%d ver=%s buf=%d codec=%d icepts=%d/%d msgs=%d closeAfter=%d faults=[%s] sync=%v",
 		sc.Seed, sc.Focus, sc.Brokers, sc.Partitions, sc.RetryMax, sc.FlushMsgs, sc.FlushBytes, sc.FlushFreq, sc.MaxMsgs, sc.MaxMsgByte,
-		sc.Idempotent, sc.Acks, sc.Version, sc.ChanBuf, sc.Codec, sc.Icepts, sc.PanicIcept, len(sc.Msgs), sc.CloseAfter, strings.Join(fs, ","), sc.Sync)
+		sc.Idempotent, sc.Acks, sc.Version, sc.ChanBuf, sc.Codec, sc.Icepts, sc.PanicIcept, len(sc.Msgs), sc.CloseAfter, strings.Join(fs, ","), sc.Sync) + fmt.Sprintf(" latency=%dms", sc.LatencyMs)
 }
 
 func payload(id, n int) []byte {
@@ -312,9 +335,12 @@ func Run(sc *Scenario) *Result {
 	sim.DupAsError = sc.DupAsError
 	sim.Fault = func(reqNo int, broker int32) sarama.VerifSimFault {
 		if f, ok := sc.Faults[reqNo]; ok {
+			if f.Kind == "ok" && f.DelayMs < sc.LatencyMs {
+				f.DelayMs = sc.LatencyMs
+			}
 			return f
 		}
-		return sarama.VerifSimFault{Kind: "ok", OnlyPartition: -1}
+		return sarama.VerifSimFault{Kind: "ok", OnlyPartition: -1, DelayMs: sc.LatencyMs}
 	}
 	sim.MetaFail = func(n int) bool { return sc.MetaFailAt[n] }
 	if sc.LeaderlessAtStart >= 0 {
@@ -835,6 +861,9 @@ func Check(res *Result) []Fail {
 				sig := "C04:success-offset-not-the-message"
 				if copies[o.ID] == 0 {
 					sig = "C04:success-but-not-in-log"
+					if sc.Idempotent {
+						sig = "C04:success-but-not-in-log-idempotent"
+					}
 				} else if dedupByError[o.ID] {
 					sig = "C04:dedup-by-error-success-without-offset"
 				}
